@@ -542,6 +542,8 @@ def run(m, tier):
     results.append(order_rules.engine_result_final_rule(m, "C09.R14"))
     from rules import symtab_interp
     results.append(symtab_interp.run_rule(m, "C09.R15", tier))
+    from rules import prog_rules
+    results.append(prog_rules.state_rule(m, "C09.R16", tier))
     expl = ("Decides the structural clauses of C09: (R1) scope typestate -- in the generic block engine, specialised for each "
             "of its call sites, and in every other function that enters a symbol-table scope, the scope is left on every normal "
             "and exceptional exit (exception edges from explicit-raise summaries over the resolved call graph, for the exception "
